@@ -88,6 +88,8 @@ def main(tier):
     models.operation_discipline(P, rep)
     models.new_value_independent(P, rep)
     models.feature_folds(P, rep)
+    models.seed_copies(P, rep)
+    models.tag_registry(P, rep)
     sib.model_families(P, rep, rule="SIB.composition", kinds=("Composition",), floor=3)
     rep.explanation = ("Fold order (single forward loop, list built in file order, no other writer), every feature write control-dependent on "
                        "the same extent test that depends only on geometry (with the effect analysis: a non-covering feature has no "
